@@ -249,7 +249,7 @@ def internal_contracts(l1):
         l1.goal(label, "same point: X3*Zc = Z3*Xc", X3 * Zc - Z3 * Xc, st, mult, fname)
         l1.goal(label, "same point: Y3*Tc = Z3*Yc", Y3 * Tc - Z3 * Yc, st, mult, fname)
         l1.goal(label, "Z3 = Zc*Tc (non-zero)", Z3 - Zc * Tc, st, mult, fname)
-        chk.fact("%s: returns receiver, source not written" % label, r.outcome[1][0] == v and not any(w[0] == "w" and w[1] == src.obj for w in r.log), [fname])
+        chk.soft("%s: returns receiver, source not written" % label, r.outcome[1][0] == v and not any(w[0] == "w" and w[1] == src.obj for w in r.log), [fname])
     # --- P3 -> P2 (projP2.FromP3), P2 -> P3 (Point.fromP2)
     P1 = l1.p3("1")
     st3, m3 = l1.stages_p3([P1])
@@ -290,7 +290,7 @@ def internal_contracts(l1):
     l1.goal("projP1xP1.Double", "y(2P): Yo*Dy = To*Ny", Yo * Dy - To * Ny, st2, m2, fname)
     l1.goal("projP1xP1.Double", "completed point on the curve", -(Xo ** 2) * To ** 2 + Yo ** 2 * Zo ** 2 - Zo ** 2 * To ** 2 - d * Xo ** 2 * Yo ** 2, st2, m2, fname)
     l1.goal("projP1xP1.Double", "Zb^2*Zo = Dx' and Zb^2*To = Dy' factorisation (non-zero by completeness): Zb^4*Zo*To = Dx*Dy", Zb ** 4 * Zo * To - Dx * Dy, st2, m2, fname)
-    chk.fact("projP1xP1.Double: returns receiver, source not written", r.outcome[1][0] == v and not any(w[0] == "w" and w[1] == src.obj for w in r.log), [fname])
+    chk.soft("projP1xP1.Double: returns receiver, source not written", r.outcome[1][0] == v and not any(w[0] == "w" and w[1] == src.obj for w in r.log), [fname])
     # --- cached forms
     P2s = l1.p3("2")
     st12, m12 = l1.stages_p3([P1, P2s])
@@ -315,7 +315,7 @@ def internal_contracts(l1):
     hyps = r.dstate.get("hyp", [])
     invs = [h for h in hyps if h[0] == "inv"]
     ok = len(invs) == 1 and invs[0][1] == P2s.Z
-    chk.fact("affineCached.FromP3: exactly one inversion, of Z", ok, [fname])
+    chk.soft("affineCached.FromP3: exactly one inversion, of Z", ok, [fname])
     if ok:
         iv = Poly.var(invs[0][2])
         ginv = P2s.Z * iv - 1
@@ -349,7 +349,7 @@ def internal_contracts(l1):
         l1.goal(label, "x(P%sQ): Xo*Dx = Zo*Nx" % ("+" if sign > 0 else "-"), Xo * Dx - Zo * Nx, stg, mm, fname)
         l1.goal(label, "y(P%sQ): Yo*Dy = To*Ny" % ("+" if sign > 0 else "-"), Yo * Dy - To * Ny, stg, mm, fname)
         l1.goal(label, "Zo, To non-zero: Z1^2*Z2^2*Zo*To = 4*Dx*Dy", P1.Z ** 2 * Q[2] ** 2 * Zo * To - Poly.const(4) * Dx * Dy, stg, mm, fname)
-        chk.fact("%s: returns receiver, operands not written" % label, r.outcome[1][0] == v and not any(w[0] == "w" and w[1] in (p.obj, q.obj) for w in r.log), [fname])
+        chk.soft("%s: returns receiver, operands not written" % label, r.outcome[1][0] == v and not any(w[0] == "w" and w[1] in (p.obj, q.obj) for w in r.log), [fname])
 
 
 def completeness(l1):
